@@ -58,7 +58,7 @@ SPECS = {
     "C11": dict(jobs=jobs_C11, clauses=QUERY_CLAUSES | TRUTH_CLAUSES, level="model_checking", k1=True),
     "C12": dict(jobs=jobs_generic(COMPOSITE, "c12", 50, 500, W=2, alpha="xyz", multi=True),
                 clauses=QUERY_CLAUSES | TRUTH_CLAUSES | SPLIT_CLAUSES, level="model_checking"),
-    "C13": dict(jobs=lambda tier, seed: jobs_generic(REPL_EXACT, "c13", 40, 400, n=10, with_bool=True)(tier, seed)
+    "C13": dict(jobs=lambda tier, seed: jobs_generic(REPL_EXACT, "c13", 40, 400, n=10, with_bool=True, pickle=True)(tier, seed)
                 + jobs_generic(APPROX, "c13a", 40, 400, n=4, alpha="approx")(tier, seed)
                 + jobs_generic([["SolverHybrid", {}]], "c13h", 40, 400, n=2, alpha="approx",
                                cfg={"hybrid_exact": False})(tier, seed),
@@ -268,7 +268,11 @@ def _pred_composite_unsat_flag(tr, k, clause):
         return False
     if clause in ("answer-on-unsat", "eval-on-unsat", "solution-on-unsat", "split-models"):
         return True
-    return clause == "satisfiable" and ev["ret"] == [[[1]]]
+    if clause == "satisfiable" and ev["ret"] == [[[1]]]:
+        return True
+    # a merge operand that is unsatisfiable only through the private flag contributes its merge condition as if it
+    # were satisfiable: the merged solver is too weak (wrong answers on a satisfiable state as well)
+    return any(e["call"] in ("add", "merge") and e.get("cfalse") for e in evs)
 
 
 def _pred_composite_stale_child(tr, k, clause):
